@@ -23,3 +23,17 @@ class multi_config_build_graph:
         "F8": lambda: G.witness("F8"),
         "F10": lambda: G.witness("F10"),
     }
+
+
+@contract("nanoemoji.nanoemoji._run", props=["C20", "C14"])
+class cli_bitmap_resolution:
+    bounded_only = True
+    gen = G.gen_cli_bitmaps
+    native_call = G.run_cli_bitmaps
+    n_quick = 4
+    n_thorough = 16
+    ensures = {
+        # through the real CLI (its resvg step): bitmap_resolution, given by flag or file, is the
+        # pixel height of every bitmap, whatever the viewBox's aspect, and fixes the strike ppem
+        "resolution-is-the-bitmap-height-and-fixes-ppem": lambda fmt, viewbox, res, by_flag, result: G.cli_bitmap_problems(fmt, viewbox, res, by_flag, result) == [],
+    }
